@@ -81,6 +81,8 @@ def text_mark(name, shape):
     return t, k
 
 
+_SWEEP = {}
+
 # ============================================================================ Tyrving
 TY_METHODS = ['points', 'get_base_perf', 'race_points', 'jump_points', 'stav_points']
 
@@ -203,6 +205,23 @@ def conc_tyrving(r):
     m = r.get('model') or {}
     ty = _ty()
     kind, pargs = ty._tyrvingTables[cx['g']][cx['ev']]
+    if r.get('kind') == 'robustness':
+        # a fragile truncation: search the property's own 0.01 grid for a witness (float and int forms)
+        kk = ('ty', cx['g'], cx['ev'], cx['age'])
+        if kk not in _SWEEP:
+            out = (dict(call='tyrving grid sweep %s' % (kk,), observed='no witness on the 0.01 grid', input=['tyrving', cx['g'], cx['age'], cx['ev'], 0.0, False]), False)
+            for k in range(0, ty_kmax(kind, pargs, cx['age'])):
+                try:
+                    got = ty.tyrving_score(cx['g'], cx['age'], cx['ev'], k / 100)
+                except Exception as e:
+                    got = 'raises %s' % type(e).__name__
+                want = J.tyrving_points(kind, pargs, cx['age'], k, False)
+                if got != want:
+                    out = (dict(call='tyrving_score(%r,%r,%r,%r)' % (cx['g'], cx['age'], cx['ev'], k / 100), observed=got, required=want,
+                                input=['tyrving', cx['g'], cx['age'], cx['ev'], k / 100, False]), True)
+                    break
+            _SWEEP[kk] = out
+        return _SWEEP[kk]
     if cx['form'] == 'float':
         k = int(m.get('k', 0))
         cands = [(k / 100, k, False)]
@@ -279,6 +298,22 @@ def conc_qkids(r):
     row = qk._qkidsTables[cx['ct']][cx['ev']]
     from athlib.codes import PAT_RUN
     timed = bool(PAT_RUN.match(cx['ev']))
+    if r.get('kind') == 'robustness':
+        kk = ('qk', cx['ct'], cx['ev'])
+        if kk not in _SWEEP:
+            out = (dict(call='qkids grid sweep %s' % (kk,), observed='no witness on the 0.01 grid', input=['qkids', cx['ct'], cx['ev'], 0.0]), False)
+            for k in range(0, int(100 * (max(row[1], row[2]) * 2 + 20))):
+                try:
+                    got = qk.qkids_score(cx['ct'], cx['ev'], k / 100)
+                except Exception as e:
+                    got = 'raises %s' % type(e).__name__
+                want = J.qkids_points(row, timed, k)
+                if got != want:
+                    out = (dict(call='qkids_score(%r,%r,%r)' % (cx['ct'], cx['ev'], k / 100), observed=got, required=want,
+                                input=['qkids', cx['ct'], cx['ev'], k / 100]), True)
+                    break
+            _SWEEP[kk] = out
+        return _SWEEP[kk]
     if cx['form'] == 'float':
         k = int(m.get('k', 0))
         cands = [(k / 100, k)] + ([(k // 100, k)] if k % 100 == 0 else [])
@@ -330,8 +365,18 @@ def sh_spec(info, high, k, den=100):
     return ite(beyond, pmax + steps * incp, r)
 
 
+def sh_forms(ev):
+    info = _sh().load_data()[ev]
+    vmax = max(Fraction(v) for _, v in info['perf2points'])
+    nint = len(str(int(vmax * 2 + 10)))
+    forms = []
+    for L in range(1, nint + 1):
+        forms += [(L, None), (L, 1), (L, 2)]
+    return forms
+
+
 def unit_sportshall(args):
-    ev, tier = args
+    ev, tier, only = args
     sh = _sh()
     db = sh.load_data()
     info = db[ev]
@@ -348,6 +393,7 @@ def unit_sportshall(args):
     for L in range(1, nint + 1):
         forms += [(L, None), (L, 1), (L, 2)]
     results = None
+    forms = [only]
     for L, d in forms:
         def run():
             c = ctx()
@@ -374,7 +420,7 @@ def unit_sportshall(args):
             results['paths'] += r['paths']
             results['wall'] += r['wall']
             results['assumptions'] = sorted(set(results['assumptions']) | set(r['assumptions']))
-    results['unit'] = 'sportshall[%s]' % ev
+    results['unit'] = 'sportshall[%s,%s]' % (ev, only)
     results['fns'] = [x.describe() for x in (fh, fl, f)]
     return results
 
@@ -400,10 +446,24 @@ def sh_check(ev, t):
     return got, want
 
 
+_SWEEP = {}
+
+
 def conc_sportshall(r):
     cx = r['ctx']
     m = r.get('model') or {}
     if r.get('kind') == 'robustness':
+        if ('sh', cx['ev']) in _SWEEP:
+            return _SWEEP[('sh', cx['ev'])]
+        _SWEEP[('sh', cx['ev'])] = _sweep_sh(cx)
+        return _SWEEP[('sh', cx['ev'])]
+    t = sh_text(cx, m)
+    got, want = sh_check(cx['ev'], t)
+    return dict(call='sportshall_score(%r,%r)' % (cx['ev'], t), observed=got, required=want, input=['sportshall', cx['ev'], t]), got != want
+
+
+def _sweep_sh(cx):
+    if True:
         # search the property's own grid for a witness of the fragile floor
         info = _sh().load_data()[cx['ev']]
         vmax = max(Fraction(v) for _, v in info['perf2points'])
@@ -502,6 +562,22 @@ def conc_bulgarian(r):
     key = cx['key']
     table = _bg().scores[key]
     if r.get('kind') == 'robustness':
+        kk = ('bg', key, cx['form'])
+        if kk not in _SWEEP:
+            _SWEEP[kk] = _sweep_bg(cx, key, table)
+        return _SWEEP[kk]
+    if cx['form'] == 'float':
+        k = int(m.get('k', 0))
+        perf = k / 100
+    else:
+        perf = _text_of(cx['form'], m)
+        k = centi_of_text(perf)
+    got, want = bg_check(key, perf, k)
+    return dict(call='bulgarian_score(%r, %r)' % (key, perf), observed=got, required=want, input=['bulgarian', key, perf, k]), got != want
+
+
+def _sweep_bg(cx, key, table):
+    if True:
         for k in range(0, 2 * max(table['min'], table['max']) + 1000):
             cands = [k / 100] if cx['form'] == 'float' else [('%d.%02d' % (k // 100, k % 100))]
             for perf in cands:
@@ -629,13 +705,14 @@ def replay(rep):
 def main(tier, seed):
     run = report.Run(PROP, tier, seed)
     run.expected_min_obligations = 500
+    run.level_claim = 'other'      # a known finding (Bulgarian table rows) keeps one ground obligation refuted
     run.explanation = 'see DESIGN §5 C11'
     run.assume('pyvc proxies/rewrites; float proxy = exact affine value + certified error (IEEE-754 binary64, round-to-nearest)',
                'z3 soundness', 'marks are on the 0.01 grid (k/100, k integer) given as the nearest double, an int, or text')
     qk = real_module('athlib.qkids_score')
     Jb = [('tyrving', (g, ev, tier)) for g, ev in ty_rows()]
     Jb += [('qkids', (ct, ev, tier)) for ct in sorted(qk._qkidsTables) for ev in qk._qkidsTables[ct]]
-    Jb += [('sportshall', (ev, tier)) for ev in _sh().RAWDATA[0][1:]]
+    Jb += [('sportshall', (ev, tier, fm)) for ev in _sh().RAWDATA[0][1:] for fm in sh_forms(ev)]
     Jb += [('bulgarian', (key, tier)) for key in _bg().scores]
     results = report.pool_map(_work, Jb)
     for res in results:
